@@ -1034,8 +1034,10 @@ fn kind_union() -> usize {
 
 /// C19 stand-in: type-level get / insert / remove against the value-level operations, judged by the
 /// independent membership predicate `member`.
-fn kind_crud(only_negative_insert_before_start: bool) -> usize {
-    let unit = if only_negative_insert_before_start { "kind_crud_neg_insert" } else { "kind_crud" };
+fn kind_crud(class: u8) -> usize {
+    // class 0: everything except the two recorded finding classes; 1: negative index before the start of a
+    // non-empty array whose kind has only required known elements; 2: array kinds with optional known elements
+    let unit = match class { 1 => "kind_crud_neg_insert", 2 => "kind_crud_optional_elems", _ => "kind_crud" };
     use vrl::value::kind::Collection;
     use vrl::value::Kind;
     use vrl::path::parse_value_path;
@@ -1057,11 +1059,16 @@ fn kind_crud(only_negative_insert_before_start: bool) -> usize {
         ("{*: integer}", Kind::object(Collection::from_unknown(Kind::integer()))),
         ("integer", Kind::integer()),
         ("[integer]|null", arr(vec![Kind::integer()]).or_null()),
+        ("[integer?]", arr(vec![Kind::integer()]).union(Kind::array(Collection::empty()))),
+        ("[integer, string?]", arr(vec![Kind::integer(), Kind::bytes()]).union(arr(vec![Kind::integer()]))),
+        ("[integer, *: string]", Kind::array(Collection::from_parts([(0usize.into(), Kind::integer())].into_iter().collect::<BTreeMap<vrl::value::kind::Index, Kind>>(), Kind::bytes()))),
+        ("{a: integer?}", Kind::object(f(vec![("a", Kind::integer().or_undefined())]))),
+        ("{a: [integer?]}", Kind::object(f(vec![("a", arr(vec![Kind::integer()]).union(Kind::array(Collection::empty())))]))),
     ];
     let ev = |json: &str| -> Value { serde_json::from_str::<serde_json::Value>(json).map(Value::from).unwrap() };
     let values: Vec<Value> = ["{}", "{\"a\": 1}", "{\"a\": 1, \"b\": \"s\"}", "{\"o\": {\"a\": \"x\"}}", "{\"a\": [1]}", "{\"x\": 5, \"y\": 6}",
-                              "[]", "[1]", "[1, \"s\"]", "[1, 2, 3]", "1", "null"].iter().map(|j| ev(j)).collect();
-    let paths = ["a", "b", "a.b", "o.a", "[0]", "[1]", "[-1]", "[-2]", "[3]", "a[0]", "a[-1]", "x"];
+                              "[]", "[1]", "[1, \"s\"]", "[1, 2, 3]", "1", "null", "[1, \"s\", \"t\"]", "{\"a\": []}"].iter().map(|j| ev(j)).collect();
+    let paths = ["a", "b", "a.b", "o.a", "[0]", "[1]", "[-1]", "[-2]", "[3]", "a[0]", "a[-1]", "x", "[-3]", "a[-2]", "a[1]"];
     let inserted: Vec<(Value, Kind)> = vec![(Value::Integer(9), Kind::integer()), (Value::from("w"), Kind::bytes()), (Value::Null, Kind::null()), (ev("{}"), Kind::object(Collection::empty()))];
     let mut bad = 0;
     let mut checked = 0;
@@ -1078,9 +1085,14 @@ fn kind_crud(only_negative_insert_before_start: bool) -> usize {
                     }
                     _ => false,
                 };
-                if neg_before_start != only_negative_insert_before_start { continue }
+                let case_class = if nk.contains('?') { 2 } else if neg_before_start { 1 } else { 0 };
+                if case_class != class { continue }
                 // get
-                let at = k.at_path(&path);
+                let Ok(at) = std::panic::catch_unwind(|| k.at_path(&path)) else {
+                    bad += 1;
+                    if bad <= 40 { fail(unit, &format!("({nk}).at_path(.{p})"), "no panic", "PANIC"); }
+                    continue;
+                };
                 let ok = match v.get(&path) { Some(x) => member(x, &at), None => at.contains_undefined() };
                 checked += 1;
                 if !ok {
@@ -1091,8 +1103,11 @@ fn kind_crud(only_negative_insert_before_start: bool) -> usize {
                 for (w, x) in &inserted {
                     let mut v2 = v.clone();
                     v2.insert(&path, w.clone());
-                    let mut k2 = k.clone();
-                    k2.insert(&path, x.clone());
+                    let Ok(k2) = std::panic::catch_unwind(|| { let mut k2 = k.clone(); k2.insert(&path, x.clone()); k2 }) else {
+                        bad += 1;
+                        if bad <= 40 { fail(unit, &format!("({nk}).insert(.{p}, {x})"), "no panic", "PANIC"); }
+                        continue;
+                    };
                     checked += 1;
                     if !member(&v2, &k2) {
                         bad += 1;
@@ -1103,8 +1118,11 @@ fn kind_crud(only_negative_insert_before_start: bool) -> usize {
                 for prune in [false, true] {
                     let mut v3 = v.clone();
                     v3.remove(&path, prune);
-                    let mut k3 = k.clone();
-                    k3.remove(&path, prune);
+                    let Ok(k3) = std::panic::catch_unwind(|| { let mut k3 = k.clone(); k3.remove(&path, prune); k3 }) else {
+                        bad += 1;
+                        if bad <= 40 { fail(unit, &format!("({nk}).remove(.{p}, prune: {prune})"), "no panic", "PANIC"); }
+                        continue;
+                    };
                     checked += 1;
                     if !member(&v3, &k3) {
                         bad += 1;
@@ -1256,8 +1274,9 @@ fn main() {
         "string_arith" => string_arith(),
         "collection_laws" => collection_laws(),
         "string_laws" => string_laws(),
-        "kind_crud" => kind_crud(false),
-        "kind_crud_neg_insert" => kind_crud(true),
+        "kind_crud" => kind_crud(0),
+        "kind_crud_neg_insert" => kind_crud(1),
+        "kind_crud_optional_elems" => kind_crud(2),
         "kind_union" => kind_union(),
         "stdlib_types" => stdlib_types(),
         "assign_typing" => assign_typing(),
